@@ -31,9 +31,15 @@ func c18BLSHash(m *c18Mach, sort int, msg, dst []byte) kyber.Point {
 	}
 	if m.name == "kilic" {
 		var g kyber.Group
-		if sort == 0 {
+		other := append([]byte("C18-OTHER-GROUP-TAG-"), dst...)
+		switch {
+		case len(msg)%2 == 0 && sort == 0: // through a suite whose G2 tag differs
+			g = kilic.NewBLS12381SuiteWithDST(append([]byte(nil), dst...), other).G1()
+		case len(msg)%2 == 0:
+			g = kilic.NewBLS12381SuiteWithDST(other, append([]byte(nil), dst...)).G2()
+		case sort == 0:
 			g = kilic.NewGroupG1(dst...)
-		} else {
+		default:
 			g = kilic.NewGroupG2(dst...)
 		}
 		h := g.Point().(kyber.HashablePoint).Hash(msg)
